@@ -256,6 +256,17 @@ func judge(c engine.Case) engine.Outcome {
 		// ... and as the value of a property whose name is repeated (first / second occurrence, nested)
 		docs := []string{q, "[" + q + ", 1]", `{"k": 1, "k": ` + q + "}", `{"k": ` + q + `, "k": 1}`, `[{"k": {"j": 1}, "k": {"j": ` + q + "}}]", "{" + q + ": " + q + "}"}
 		labels := []string{"json-string", "json-array", "json-dup-second", "json-dup-first", "json-dup-nested", "json-object"}
+		if d.E.K == "tmpl" && d.E.Form == "q" && len(d.Src) >= 2 && !strings.Contains(d.Src, `\`) {
+			// the content of a quoted template without escape sequences is
+			// also a JSON string template by itself (no enclosing "${ }"):
+			// as a string and as object key and value
+			q2 := jsonQuote(d.Src[1 : len(d.Src)-1])
+			docs = append(docs, q2, "{"+q2+": "+q2+"}", "{"+q2+": 1}")
+			labels = append(labels, "json-string-direct", "json-object-direct", "json-object-key-direct")
+		}
+		// the expression in the key alone (the value must not report the same variables for it)
+		docs = append(docs, "{"+q+": 1}")
+		labels = append(labels, "json-object-key")
 		var out engine.Outcome
 		for i, doc := range docs {
 			expr, diags := hcljson.ParseExpression([]byte(doc), "t.json")
